@@ -646,6 +646,42 @@ class Run:
                           f"qulacs operator for {h.name()} has terms {got} but the operator now is {exp}")
         if {lbl: complex(c) for lbl, c in op.items()} != content:
             self.fail("sweep:lookup:mutates_operator", f"{h.name()} changed by a cache lookup")
+        # the same caches asked with the other argument forms their signatures allow: an iterable of labels (list, tuple,
+        # key view, one-shot iterator, generator, map object - first use may be a miss, the second a hit) and a bare label
+        # (each label of the operator and the identity label); an operator without terms is asked too, so that the identity
+        # label and "no terms" are told apart in whichever order the history meets them
+        self.stats["lookups_other_forms"] = self.stats.get("lookups_other_forms", 0) + 1
+        labels = list(content)
+        form = self.stats["lookups"] % 6
+        mk = [lambda: list(labels), lambda: tuple(labels), lambda: dict.fromkeys(labels).keys(), lambda: iter(list(labels)),
+              lambda: (x for x in list(labels)), lambda: map(lambda x: x, list(labels))][form]
+        fname = ["list", "tuple", "keys view", "iterator", "generator", "map object"][form]
+        for arg in (mk(), list(labels)):
+            cov = [x for g in self.cmf(arg) for x in g.pauli_set]
+            if sorted(map(str, cov)) != sorted(map(str, labels)):
+                self.fail("sweep:CachedMeasurementFactory:labels_lookup",
+                          f"groups returned for the labels {sorted(map(str, labels))} given as a {fname} (then as a list) cover "
+                          f"{sorted(map(str, cov))}")
+                break
+        if HAVE_QULACS:
+            def terms(q):
+                out = {}
+                for i in range(q.get_term_count()):
+                    t = q.get_term(i)
+                    k = frozenset(zip(t.get_index_list(), t.get_pauli_id_list()))
+                    out[k] = out.get(k, 0) + complex(t.get_coef())
+                return {k: v for k, v in out.items() if v != 0}
+            order = [PAULI_IDENTITY] + labels[:2] + [None]
+            if self.stats["lookups"] % 2:
+                order.reverse()
+            for lbl in order:
+                if lbl is None:
+                    got, exp, what = terms(convert_operator(Operator(), n)), {}, "an operator without terms"
+                else:
+                    got = terms(convert_operator(lbl, n))
+                    exp, what = {frozenset((int(i), int(p)) for i, p in lbl): 1}, f"the bare label {lbl}"
+                if set(got) != set(exp) or any(abs(got[k] - exp[k]) > 1e-12 for k in exp):
+                    self.fail("sweep:convert_operator:label_or_empty", f"qulacs operator for {what} has terms {got}, expected {exp}")
 
     def estimate(self, h, s):
         n = self.n
